@@ -325,26 +325,34 @@ impl<'tcx> Cx<'tcx> {
     }
 
     fn dump_body(&mut self, did: DefId, body: &Body<'tcx>, phase: &str, out: &mut String, edges: &mut String) {
+        self.dump_body_named(did, body, phase, out, edges, None)
+    }
+
+    fn dump_body_named(&mut self, did: DefId, body: &Body<'tcx>, phase: &str, out: &mut String, edges: &mut String, suffix: Option<String>) {
         let tcx = self.tcx;
         let env = TypingEnv::post_analysis(tcx, did);
-        let name = qpath(tcx, did);
+        let name = match &suffix { Some(sf) => format!("{}::{}", qpath(tcx, did), sf), None => qpath(tcx, did) };
         let kind = tcx.def_kind(did);
+        let promoted = suffix.is_some();
         let mut hdr = format!(
             "{{\"t\":\"fn\",\"name\":{},\"pretty\":{},\"kind\":{},\"phase\":{},\"span\":{},\"argc\":{}",
             esc(&name),
             esc(&tcx.def_path_str(did)),
-            esc(&format!("{:?}", kind)),
+            esc(&if promoted { "Promoted".to_string() } else { format!("{:?}", kind) }),
             esc(phase),
             esc(&self.span_str(body.span)),
             body.arg_count
         );
-        if let Some(ck) = tcx.coroutine_kind(did) {
+        if promoted {
+        } else if let Some(ck) = tcx.coroutine_kind(did) {
             let _ = write!(hdr, ",\"coroutine\":{}", esc(&format!("{:?}", ck)));
         }
-        if matches!(kind, DefKind::Closure) {
+        if promoted {
+            let _ = write!(hdr, ",\"promoted_of\":{}", esc(&qpath(tcx, did)));
+        } else if matches!(kind, DefKind::Closure) {
             let _ = write!(hdr, ",\"parent\":{}", esc(&qpath(tcx, tcx.parent(did))));
         }
-        if matches!(kind, DefKind::AssocFn) {
+        if !promoted && matches!(kind, DefKind::AssocFn) {
             let parent = tcx.parent(did);
             if matches!(tcx.def_kind(parent), DefKind::Impl { .. }) {
                 let self_ty = tcx.type_of(parent).instantiate_identity().skip_norm_wip();
@@ -837,6 +845,12 @@ impl rustc_driver::Callbacks for Cb {
                     cx.dump_body(did, body, "opt", &mut out, &mut edges);
                     cx.open_options_summary(did, body, &mut edges);
                 }
+                // promoted constants (`&"literal"`, `&[..]` temporaries): small bodies of their own
+                let proms = tcx.promoted_mir(did);
+                for (pi, pb) in proms.iter_enumerated() {
+                    let mut dummy = String::new();
+                    cx.dump_body_named(did, pb, "promoted-const", &mut out, &mut dummy, Some(format!("promoted[{}]", pi.as_u32())));
+                }
             } else {
                 let body = tcx.optimized_mir(did);
                 cx.dump_edges_only(did, body, &mut edges);
@@ -879,6 +893,22 @@ impl rustc_driver::Callbacks for Cb {
                     variants.join(","),
                     esc(&cx.span_str(tcx.def_span(did)))
                 );
+            }
+            // variant names of foreign enums that occur in this crate's types (for decision tables
+            // over e.g. pulldown_cmark::Event / Tag)
+            let mut ext: Vec<DefId> = cx.tys.keys().filter_map(|t| match t.kind() { ty::Adt(a, _) if !a.did().is_local() && a.is_enum() => Some(a.did()), _ => None }).collect();
+            let mut seen_ext = std::collections::HashSet::new();
+            ext.retain(|d| seen_ext.insert(*d));
+            let mut ext: Vec<(String, DefId)> = ext.into_iter().map(|d| (qpath(tcx, d), d)).collect();
+            ext.sort_by(|a, b| a.0.cmp(&b.0));
+            for (_, did) in ext {
+                let adt = tcx.adt_def(did);
+                let mut vs = vec![];
+                for (vi, v) in adt.variants().iter_enumerated() {
+                    let discr = adt.discriminant_for_variant(tcx, vi).val.to_string();
+                    vs.push(format!("{{\"name\":{},\"idx\":{},\"discr\":{}}}", esc(v.name.as_str()), vi.as_u32(), esc(&discr)));
+                }
+                let _ = writeln!(out, "{{\"t\":\"adt_ext\",\"name\":{},\"variants\":[{}]}}", esc(&qpath(tcx, did)), vs.join(","));
             }
             // trait definitions (method lists) of this crate
             for id in tcx.hir_crate_items(()).definitions() {
